@@ -37,16 +37,19 @@ theorem ban_affects_only_its_address (s : Store) (a b : Bytes) (e : Entry) (now 
   refused_add_other s a b e now h
 
 /-- (5) Disconnect with the temporary-ban option at instant `t0`: the address is refused for
-    exactly the next 30 minutes … -/
+    exactly the next `BanDuration` … -/
 theorem disconnect_temporary (s : Store) (ip : Bytes) (t0 now : Nat) :
-    refused (disconnectBan s (some 1) t0 ip) ip now = true ↔ now < t0 + 30 * 60 * 1000000000 := by
-  simp [disconnectBan, refused, lookup_add_same, banDuration, banDurationMinutes]
+    refused (disconnectBan s (some 1) t0 ip) ip now = true ↔ now < t0 + banDuration := by
+  simp [disconnectBan, refused, lookup_add_same]
 
 /-- (5') … and can log in again afterwards. -/
-theorem disconnect_temporary_expires (s : Store) (ip : Bytes) (t0 now : Nat) (h : t0 + 30 * 60 * 1000000000 ≤ now) :
+theorem disconnect_temporary_expires (s : Store) (ip : Bytes) (t0 now : Nat) (h : t0 + banDuration ≤ now) :
     refused (disconnectBan s (some 1) t0 ip) ip now = false := by
-  have : ¬ now < t0 + 30 * 60 * 1000000000 := by omega
-  simpa [disconnectBan, refused, lookup_add_same, banDuration, banDurationMinutes] using this
+  have : ¬ now < t0 + banDuration := by omega
+  simpa [disconnectBan, refused, lookup_add_same] using this
+
+/-- (5'') `BanDuration` is 30 minutes (in nanoseconds). -/
+theorem ban_duration_is_30_minutes : banDuration = 30 * 60 * 1000000000 := rfl
 
 /-- (6) Disconnect with the permanent-ban option: refused indefinitely. -/
 theorem disconnect_permanent (s : Store) (ip : Bytes) (t0 : Nat) : ∀ now, refused (disconnectBan s (some 2) t0 ip) ip now = true := by
@@ -135,7 +138,8 @@ example : ((Store.empty.add [49, 46, 50] none).add [49, 46, 51] (some 100)).look
 example : refused ((Store.empty.add [49, 46, 50] none).add [49, 46, 51] (some 100)) [49, 46, 51] 99 = true := by decide
 example : refused ((Store.empty.add [49, 46, 50] none).add [49, 46, 51] (some 100)) [49, 46, 51] 100 = false := by decide
 example : ipOf [49, 46, 50, 58, 56, 48] = [49, 46, 50] := by decide
-example : ∀ e', Op.add [1] e' ∉ [Op.reload, Op.add [2] none, Op.reload] := by decide
+example : ∀ e', Op.add [1] e' ∉ [Op.reload, Op.add [2] none, Op.reload] := by
+  intro e' h; simp at h
 example : (Session.core (demoEnv (Store.empty.add [49] none) [49, 58, 57] 0) 40 demoHandshake
       (fun _ => ⟨[demoLogin.encode], .eof⟩)).outcome = .banned true := by decide +kernel
 example : (demoHandshake.take 12).length = 12 ∧ handshakeValid (demoHandshake.take 12) = true := by decide
